@@ -22,7 +22,7 @@ ASSUMPTIONS = [
 
 
 def budget(tier):
-    return 2400 if tier == "quick" else 60000
+    return 2400 if tier == "quick" else 30000
 
 
 def machines(tier):
